@@ -263,6 +263,8 @@ def run_generic(prop, tier, seed, items, job, extra=(), engine="e3", level="mode
                     samples.append(s)
             for v in (res.get("violations") or []):
                 rep.add(v, v.get("world"), v.get("case"))
+            if res.get("unbound") and len(rep.broken) < 5:
+                rep.broken.append("model/implementation binding: " + res["unbound"])
     except BrokenCheck as e:
         print("BROKEN-CHECK: harness failure\n" + str(e))
         sys.exit(2)
